@@ -262,9 +262,9 @@ def register_opcode1(form: int, first: int, lo: int, a: int) -> int:
     return r
 
 
-@harness("C15", lemma="register-opcode-2", cubes={"form": [0, 1, 2], "first": [0, 1], "lo": list(range(0, REG_STEPS, 10))}, tier="thorough",
-         pre=["lo <= a < lo + 10", "a <= b <= %d" % REG_STEPS], example=dict(form=1, first=0, lo=30, a=30, b=60), timeout=1800,
-         bounds="as register-opcode-1 with every schedule of two context switches", what="as register-opcode-1")
+@harness("C15", lemma="register-opcode-2", cubes={"form": [1], "first": [0, 1], "lo": list(range(0, REG_STEPS, 10))}, tier="thorough",
+         pre=["lo <= a < lo + 10", "a <= b <= a + 60"], example=dict(form=1, first=0, lo=30, a=30, b=60), timeout=1800,
+         bounds="list-alias form; every schedule of two context switches at most 60 bytecode steps apart", what="as register-opcode-1")
 def register_opcode2(form: int, first: int, lo: int, a: int, b: int) -> int:
     r, n = _register(form, first, (a, b), "opcode")
     if n > REG_STEPS:
